@@ -60,9 +60,7 @@ type replWorld struct {
 	ackedMax      uint64
 	ackedReset    uint64            // highest id acknowledged to a live handler since the last reset
 	sinceReset    map[uint64]bool   // ids acknowledged since the last reset
-	epochLast     uint64            // last id delivered to the current handler (or its resume point)
-	epochOpen     bool
-	strayFirst    map[uint64]int    // first id a halted handler may still deliver
+	cfgs          []replCfg         // possible attributions of the acknowledged batches to handlers (see replCfg)
 	staleSeen     bool
 	batches       int
 	nStray        int
@@ -72,8 +70,42 @@ type replWorld struct {
 	started       bool // the monitor's view: a handler is registered in the manager
 }
 
+// The exporter cannot tell which handler a batch comes from: a batch is either the next one of the running
+// handler or the single page a halted handler still had in its un-awaited Accept goroutine (which continues
+// right after what THAT handler had delivered). The monitor keeps every attribution that is still consistent.
+type replCfg struct {
+	open  bool     // a handler is running
+	last  uint64   // last id delivered to it (or its resume point)
+	stray []uint64 // for each halted handler that may still deliver one page: the id it had reached
+}
+
+func (c replCfg) clone() replCfg {
+	return replCfg{c.open, c.last, append([]uint64(nil), c.stray...)}
+}
+
 func newReplWorld(ps uint64) *replWorld {
-	return &replWorld{ps: ps, sinceReset: map[uint64]bool{}, strayFirst: map[uint64]int{}, gate: make(chan struct{})}
+	return &replWorld{ps: ps, sinceReset: map[uint64]bool{}, cfgs: []replCfg{{}}, gate: make(chan struct{})}
+}
+
+// the running handler has delivered everything (in some consistent attribution)
+func (w *replWorld) caughtUp() bool {
+	n := len(w.ids)
+	for _, c := range w.cfgs {
+		if c.open && (n == 0 || c.last == w.ids[n-1]) {
+			return true
+		}
+	}
+	return false
+}
+
+func (w *replWorld) reached() uint64 {
+	m := uint64(0)
+	for _, c := range w.cfgs {
+		if c.open && c.last > m {
+			m = c.last
+		}
+	}
+	return m
 }
 
 func (w *replWorld) rec(s string) {
@@ -123,8 +155,9 @@ func (w *replWorld) pipelineRow() ledger.Pipeline {
 
 // a handler was (re)started by the code from the row it just read / was handed
 func (w *replWorld) spawned(resume uint64, reset bool) {
-	w.epochOpen = true
-	w.epochLast = resume
+	for i := range w.cfgs {
+		w.cfgs[i].open, w.cfgs[i].last = true, resume
+	}
 	if resume > w.ackedReset {
 		tag := "[resume-skips-logs]"
 		if w.staleSeen {
@@ -135,10 +168,12 @@ func (w *replWorld) spawned(resume uint64, reset bool) {
 }
 
 func (w *replWorld) halted() {
-	if w.epochOpen {
-		w.strayFirst[w.epochLast]++ // a straggler continues right after what that handler had delivered
+	for i := range w.cfgs {
+		if w.cfgs[i].open {
+			w.cfgs[i].stray = append(w.cfgs[i].stray, w.cfgs[i].last) // a straggler continues right after it
+		}
+		w.cfgs[i].open = false
 	}
-	w.epochOpen = false
 	w.started = false
 }
 
@@ -406,24 +441,53 @@ func (d replDriver) Accept(_ context.Context, logs ...drivers.LogWithLedger) ([]
 		}
 	}
 	first, last := ids[0], ids[len(ids)-1]
+	var next []replCfg
+	inRun, asStray := false, false
+	for _, c := range w.cfgs {
+		if c.open && first == w.succ(c.last) {
+			n := c.clone()
+			n.last = last
+			next = append(next, n)
+			inRun = true
+		}
+		for k, after := range c.stray {
+			if w.succ(after) == first {
+				n := c.clone()
+				n.stray = append(n.stray[:k], n.stray[k+1:]...)
+				next = append(next, n)
+				asStray = true
+				break
+			}
+		}
+	}
+	if len(next) > 32 {
+		next = next[:32]
+	}
 	switch {
-	case w.epochOpen && first == w.succ(w.epochLast):
-		w.epochLast = last
+	case inRun:
 		if last > w.ackedReset {
 			w.ackedReset = last
 		}
-	case w.strayCandidate(first):
-		w.nStray++ // the un-awaited Accept goroutine of a halted handler (continues that handler's run)
+		if !asStray {
+			break
+		}
+		fallthrough
+	case asStray:
+		w.nStray++ // (possibly) the un-awaited Accept goroutine of a halted handler
 	default:
+		c := w.cfgs[0]
 		exp := uint64(0)
-		if w.epochOpen {
-			exp = w.succ(w.epochLast)
+		if c.open {
+			exp = w.succ(c.last)
 		}
-		w.violate("exporter received a batch starting at id %d; the running handler resumed/continued after id %d so the next log is %d (gap, repetition or reordering inside one run) [order]", first, w.epochLast, exp)
-		if w.epochOpen && last > w.epochLast {
-			w.epochLast = last
+		w.violate("exporter received a batch starting at id %d; the running handler resumed/continued after id %d so the next log is %d (gap, repetition or reordering inside one run) [order]", first, c.last, exp)
+		n := c.clone()
+		if n.open && last > n.last {
+			n.last = last
 		}
+		next = []replCfg{n}
 	}
+	w.cfgs = next
 	if last > w.ackedMax {
 		w.ackedMax = last
 	}
@@ -431,16 +495,6 @@ func (d replDriver) Accept(_ context.Context, logs ...drivers.LogWithLedger) ([]
 		w.sinceReset[id] = true
 	}
 	return make([]error, len(logs)), nil
-}
-
-func (w *replWorld) strayCandidate(first uint64) bool {
-	for after, n := range w.strayFirst {
-		if n > 0 && w.succ(after) == first {
-			w.strayFirst[after]--
-			return true
-		}
-	}
-	return false
 }
 
 type replFactory struct{ w *replWorld }
@@ -635,7 +689,7 @@ func (r *replRun) quiet(max time.Duration, needStored bool) bool {
 		w := r.w
 		w.mu.Lock()
 		n := len(w.ids)
-		ok := w.inFlight == 0 && (n == 0 || (w.epochOpen && w.epochLast == w.ids[n-1] && (!needStored || (w.stored != nil && *w.stored == w.ids[n-1]))))
+		ok := w.inFlight == 0 && w.caughtUp() && (n == 0 || !needStored || (w.stored != nil && *w.stored == w.ids[n-1]))
 		w.mu.Unlock()
 		if ok {
 			return true
@@ -806,7 +860,7 @@ func runRepl(c replCase) (w *replWorld, verdict string) {
 			if n > 0 {
 				last = w.ids[n-1]
 			}
-			w.violate("exporter healthy and pipeline started for 15s, yet the running handler delivered only up to id %d of %d [not-delivered]", w.epochLast, last)
+			w.violate("exporter healthy and pipeline started for 15s, yet the running handler delivered only up to id %d of %d [not-delivered]", w.reached(), last)
 		} else {
 			var missing []uint64
 			for _, id := range w.ids {
